@@ -3,6 +3,15 @@
 //!   c17 frags <exhaustive-blocks 1|2|3> <samples> <out.ndjson>   fragment concatenations (index order of Trace_Lex!FragAt)
 //!   c17 free <count> <out.ndjson>                seeded random longer texts
 //!   c17 one <file-with-text>                      print the record for one text (replay)
+//! round 2 (index order of the Trace_Lex operator named in brackets; every record carries its `idx`; the
+//! exhaustive part comes first with idx = 1..exh, then seeded samples; stdout: "<records> <exhaustive>"):
+//!   c17 ustrings <exhlen> <samples> <out>        strings over UALPHABET [StringAtOver(UAlphabet, _)], samples of length exhlen+1
+//!   c17 numgram <exhlen> <samples> <out>         strings over NUMALPHABET [StringAtOver(NumAlphabet, _)], samples of the longer ones
+//!   c17 numctx <exhlen> <samples> <out>          pre x number-ish string x post [NumCtxAt]; exhlen -1: samples only
+//!   c17 uctx <out>                               context x foreign character x context [UCtxAt], all
+//!   c17 files <out>                              head x body x tail [FileAt], all
+//!   c17 long <samples> <maxchars> <out>          unit^count + window [LongAt]: sampled, texts of at most maxchars characters
+//!   c17 long-one <idx>                           print the record of one long text (replay)
 //! Set C17_STUB=nonl to replace the tokenizer's positions by a deliberately wrong line counter
 //! (negative control: TLC must reject).
 
@@ -22,7 +31,71 @@ const FRAGS: &[&str] = &[
     "1e+1", "1e", "1.e", "\"a\"", "\"\"", "\"a\nb\"", "\"\n\"", "\"", "\"x//y\"", "// c", "//", "/", "\n", "+", "-",
     "*", "+=", "-=", "*=", "/=", "#", ":", "::", ":=", "=", "==", "!=", "<=>", "<!>", "(", ")", "[", "]", "{", "}", ">",
     ">=", "<", "<=", "!", "?", "|", "'", ",", ".", "->", "<<<<<<<", ">>>>>>>", "<<<", "$", "\t", "\r", "\r\n",
+    // round 2: one representative per class of characters outside the token alphabet ...
+    "\u{3bb}", "\u{969}", "\u{bd}", "\u{2003}", "\u{301}", "\u{203f}", "\u{feff}", "\u{1f600}", "\u{c}",
+    // ... and number forms on which the float regex is easily got wrong
+    "1e-+5", "1e+-5", "1E5", "1_0", "1..2", ".5.", "1e5e5", "e5", "1e+", "1.e5", "5e", "E",
 ];
+
+/// Trace_Lex!UAlphabet with the real characters.
+const UALPHABET: &[&str] = &[
+    "e", "1", ".", "\"", "/", "\n", " ", "-", "=", // token characters
+    "\u{e9}", "\u{4e2d}", // @ letters: e-acute, CJK
+    "\u{663}", "\u{ff13}", "\u{1d7d9}", // % decimal digits: Arabic-Indic 3, fullwidth 3, mathematical double-struck 1 (non-BMP)
+    "\u{b2}", "\u{2163}", // ^ other numerics: superscript 2, Roman numeral IV
+    "\u{a0}", "\u{2028}", "\u{b}", // ~ other white space: NBSP, LINE SEPARATOR, VT
+    "\u{301}", // ` combining acute
+    "\u{203f}", // & undertie
+    "\u{feff}", // ; byte-order mark
+    "\u{1f600}", "\u{0}", // $ emoji (non-BMP), NUL
+];
+
+/// Trace_Lex!NumAlphabet
+const NUMALPHABET: &[&str] = &["1", ".", "e", "E", "+", "-", "a", "_"];
+const NUM_MAXLEN: usize = 6;
+const NUMCTX_MAXLEN: usize = 5;
+const NUMPRE: &[&str] = &["x", "x ", "=", " ", "(", "\n"];
+const NUMPOST: &[&str] = &["", "x", " x", "=", " ", ")", "\n"];
+
+/// Trace_Lex!UChars, UPre, UPost
+const UCHARS: &[&str] = &[
+    "\u{e9}", "\u{3bb}", "\u{4e2d}", // @
+    "\u{663}", "\u{969}", "\u{ff13}", "\u{1d7d9}", // %
+    "\u{b2}", "\u{bd}", "\u{2163}", // ^
+    "\u{a0}", "\u{2003}", "\u{3000}", "\u{2028}", "\u{85}", "\u{b}", "\u{c}", // ~
+    "\u{301}", // `
+    "\u{203f}", // &
+    "\u{feff}", // ;
+    "\u{1f600}", "\u{0}", "\u{7f}", "$", "\u{1b}", // $
+];
+const UPRE: &[&str] = &[
+    "", "e", "A9", "_", "if", "end", "nil", "12", "1.", ".5", "1e", "1e1", "1e-", "\"a\"", "\"a", "// c", "//", "\n", "e\n",
+    " ", "e ", "\t", "\r", "+", "-", "<", "<=", ".", ":", "(", ")", "\"a\nb\"", "<<<<<<",
+];
+const UPOST: &[&str] = &[
+    "", "e", "A9", "_", "if", "nil", "12", ".5", "1e1", "\"a\"", "b\"", "// c", "\n", "\ne", " ", " e", "\t", "\r", "\r\n",
+    "+", "-", "=", ">", ".", "(", "\"", "/",
+];
+
+/// Trace_Lex!FHeads, FBodies, FTails
+const FHEADS: &[&str] = &[
+    "", "\u{feff}", "\u{feff}\u{feff}", " ", "\t", "\n", "\n\n", "\r\n", "\r", "// c\n", "//\u{e9}\n", "\u{feff}\n", "\u{0}",
+    "\u{b}", " \n", "\"\n\"", "\u{feff}// c\n", "\u{c}\n",
+];
+const FBODIES: &[&str] = &[
+    "e", "e = 1.5", "e\n1", "e\r\n1", "e\r1", "\"a\nb\" e", "e // \u{e9}\n1", "e\u{feff}1", "e\u{0}1", "\te\t1",
+    "e \u{e9} 1", "if e do\n  ret 1\nend",
+];
+const FTAILS: &[&str] = &[
+    "", "\n", "\n\n\n", "\r", "\r\n", " ", "\t", "\u{feff}", "\u{0}", "\n\u{feff}", "// c", "\"", "\n\r", "\u{1a}",
+];
+
+/// Trace_Lex!LUnits, LCounts, LWindows
+const LUNITS: &[&str] = &["\n", "e\n", "\r\n", " ", "e ", "\t", "\"\u{e9}\" ", "//\u{e9}\n", "\"\n\" ", "e \"a\nb\"\n"];
+const LCOUNTS: &[usize] = &[255, 256, 4095, 4096, 4097, 65535, 65536, 65537];
+const LWINDOWS: &[&str] = &["e 1.5", "e\u{e9} \"a\nb\" e // c\n1", "\"\u{e9}", "", "\n\ne"];
+/// how many of the last tokens of a long text are recorded
+const LONG_TAIL: usize = 16;
 
 fn fixed_spelling(t: &Token) -> Option<&'static str> {
     use Token::*;
@@ -97,14 +170,78 @@ fn fixed_spelling(t: &Token) -> Option<&'static str> {
 }
 
 /// TLC cannot carry non-ASCII characters in state variables (its state queue serialises strings as
-/// bytes), so the record shows TLC a character-for-character abstraction of the text: every non-ASCII
-/// character becomes '@', which like them belongs to no token class, is legal inside strings and
-/// comments, and is one column wide. The real tokenizer always sees the real text.
-fn abs(s: &str) -> String {
-    s.chars().map(|c| if c.is_ascii() { c } else { '@' }).collect()
+/// bytes), so the record shows TLC a character-for-character abstraction of the text: every character
+/// outside the documented token alphabet becomes the ASCII stand-in of its class (SyltLex: UniLetter @,
+/// UniDigit %, UniNumber ^, OtherSpace ~, UniMark `, UniConn &, UniFormat ;, OtherChar $). Like the real
+/// characters the stand-ins belong to no token class, are legal inside strings and comments and are one
+/// column wide. The real tokenizer always sees the real text. The classification is by Unicode general
+/// category; it is a table here (no Unicode crate is available) and part of the trusted base.
+fn standin(c: char) -> char {
+    let u = c as u32;
+    match c {
+        'A'..='Z' | 'a'..='z' | '0'..='9' | '_' | ' ' | '\t' | '\r' | '\n' | '+' | '-' | '*' | '/' | '=' | '#' | ':'
+        | '!' | '<' | '>' | '(' | ')' | '[' | ']' | '{' | '}' | '?' | '|' | '\'' | ',' | '.' | '"' => c,
+        // White_Space other than the documented blanks and the newline
+        '\u{b}' | '\u{c}' | '\u{85}' | '\u{a0}' | '\u{1680}' | '\u{2000}'..='\u{200a}' | '\u{2028}' | '\u{2029}'
+        | '\u{202f}' | '\u{205f}' | '\u{3000}' => '~',
+        _ if c.is_ascii() => '$', // $ % ^ & ~ ` ; \ @, NUL and the other controls, DEL
+        // Mn (the blocks of combining marks)
+        '\u{300}'..='\u{36f}' | '\u{1ab0}'..='\u{1aff}' | '\u{1dc0}'..='\u{1dff}' | '\u{20d0}'..='\u{20ff}'
+        | '\u{fe20}'..='\u{fe2f}' => '`',
+        // Pc
+        '\u{203f}' | '\u{2040}' | '\u{2054}' | '\u{fe33}' | '\u{fe34}' | '\u{fe4d}'..='\u{fe4f}' | '\u{ff3f}' => '&',
+        // Cf
+        '\u{ad}' | '\u{200b}'..='\u{200f}' | '\u{202a}'..='\u{202e}' | '\u{2060}'..='\u{2064}' | '\u{feff}' => ';',
+        _ if c.is_numeric() => {
+            // Nd: every block of decimal digits is ten consecutive code points
+            const ND: &[u32] = &[
+                0x660, 0x6f0, 0x7c0, 0x966, 0x9e6, 0xa66, 0xae6, 0xb66, 0xbe6, 0xc66, 0xce6, 0xd66, 0xde6, 0xe50, 0xed0,
+                0xf20, 0x1040, 0x1090, 0x17e0, 0x1810, 0x1946, 0x19d0, 0x1a80, 0x1a90, 0x1b50, 0x1bb0, 0x1c40, 0x1c50,
+                0xa620, 0xa8d0, 0xa900, 0xa9d0, 0xa9f0, 0xaa50, 0xabf0, 0xff10, 0x104a0, 0x1d7ce, 0x1d7d8, 0x1d7e2,
+                0x1d7ec, 0x1d7f6,
+            ];
+            if ND.iter().any(|b| u >= *b && u < *b + 10) {
+                '%'
+            } else {
+                '^'
+            }
+        }
+        _ if c.is_whitespace() => '~',
+        _ if c.is_alphabetic() => '@',
+        _ => '$',
+    }
 }
 
-fn record(text: &str) -> Value {
+fn abs(s: &str) -> String {
+    s.chars().map(standin).collect()
+}
+
+/// The class table against what std knows about the representatives used in the universes (a wrong table
+/// would make the specification expect the wrong class): tool error, never a verdict.
+fn selfcheck() {
+    for (c, want) in [
+        ('\u{e9}', '@'), ('\u{3bb}', '@'), ('\u{4e2d}', '@'), ('\u{663}', '%'), ('\u{969}', '%'), ('\u{ff13}', '%'),
+        ('\u{1d7d9}', '%'), ('\u{b2}', '^'), ('\u{bd}', '^'), ('\u{2163}', '^'), ('\u{a0}', '~'), ('\u{2003}', '~'),
+        ('\u{3000}', '~'), ('\u{2028}', '~'), ('\u{85}', '~'), ('\u{b}', '~'), ('\u{c}', '~'), ('\u{301}', '`'),
+        ('\u{203f}', '&'), ('\u{feff}', ';'), ('\u{1f600}', '$'), ('\u{0}', '$'), ('\u{7f}', '$'), ('$', '$'),
+        ('\u{1b}', '$'), ('\u{1a}', '$'), ('@', '$'), ('%', '$'), ('~', '$'), ('a', 'a'), ('\r', '\r'),
+    ] {
+        let std_ok = match want {
+            '@' => c.is_alphabetic() && !c.is_numeric() && !c.is_ascii(),
+            '%' => c.is_numeric() && !c.is_ascii(),
+            '^' => c.is_numeric() && !c.is_ascii(),
+            '~' => c.is_whitespace() && !matches!(c, ' ' | '\t' | '\r' | '\n'),
+            '`' | '&' | ';' => !c.is_alphanumeric() && !c.is_whitespace() && !c.is_ascii(),
+            '$' => !c.is_alphanumeric() && !c.is_whitespace(),
+            _ => c.is_ascii(),
+        };
+        if standin(c) != want || !std_ok {
+            tool_error(&format!("character class table is wrong for U+{:04X}", c as u32));
+        }
+    }
+}
+
+fn tok_records(text: &str) -> Vec<Value> {
     let stub = std::env::var("C17_STUB").ok();
     let toks = string_to_tokens(0, text);
     let mut out = Vec::new();
@@ -133,12 +270,54 @@ fn record(text: &str) -> Value {
         out.push(json!({"k":k,"txt":abs(&txt),"line":line,"lend":pt.span.line_end,
                         "cs":pt.span.col_start,"ce":pt.span.col_end}));
     }
-    json!({"input": abs(text), "raw": text, "toks": out})
+    out
 }
 
-fn string_at(mut m: usize) -> String {
-    // same layout as Trace_Lex!StringAt: blocks by length, digits least significant first
-    let a = ALPHABET.len();
+fn record(text: &str) -> Value {
+    let a = abs(text);
+    if a == text {
+        json!({"input": a, "toks": tok_records(text)})
+    } else {
+        json!({"input": a, "raw": text, "toks": tok_records(text)})
+    }
+}
+
+fn record_idx(text: &str, idx: usize) -> Value {
+    let mut r = record(text);
+    r["idx"] = json!(idx);
+    r
+}
+
+/// A long text: total number of tokens, the last LONG_TAIL tokens (`first` = index of the first of them) and
+/// sampled earlier tokens with their indices. Which tokens belong to the periodic prefix and what they have
+/// to be is decided by Trace_Lex (TracePrefix), not here.
+fn record_long(idx: usize) -> Value {
+    let text = long_at(idx);
+    let all = tok_records(&text);
+    let n = all.len();
+    let first = n.saturating_sub(LONG_TAIL) + 1;
+    let mut js: Vec<usize> = vec![1, 2, 3, n / 4, n / 2, 3 * n / 4];
+    let mut rng = rand::rngs::StdRng::seed_from_u64(seed() ^ (idx as u64) ^ 0x10C17);
+    for _ in 0..8 {
+        if n > 0 {
+            js.push(1 + rng.gen_range(0..n));
+        }
+    }
+    js.retain(|j| *j >= 1 && *j < first);
+    js.sort();
+    js.dedup();
+    let samples: Vec<Value> = js.iter().map(|j| json!({"j": *j, "t": all[*j - 1].clone()})).collect();
+    json!({"input": abs(&text), "idx": idx, "ntoks": n, "first": first,
+           "toks": all[first - 1..].to_vec(), "samples": samples})
+}
+
+fn num_strings(a: usize, maxlen: i64) -> usize {
+    (0..=maxlen).map(|l| a.pow(l as u32)).sum()
+}
+
+fn string_at_over(al: &[&str], mut m: usize) -> String {
+    // same layout as Trace_Lex!StringAtOver (m is 0-based): blocks by length, digits least significant first
+    let a = al.len();
     let mut l = 0usize;
     loop {
         let block = a.pow(l as u32);
@@ -150,10 +329,71 @@ fn string_at(mut m: usize) -> String {
     }
     let mut s = String::new();
     for _ in 0..l {
-        s.push_str(ALPHABET[m % a]);
+        s.push_str(al[m % a]);
         m /= a;
     }
     s
+}
+
+fn string_at(m: usize) -> String {
+    string_at_over(ALPHABET, m)
+}
+
+fn numctx_at(idx: usize) -> String {
+    let m = idx - 1;
+    let po = m % NUMPOST.len();
+    let pr = (m / NUMPOST.len()) % NUMPRE.len();
+    let s = m / (NUMPOST.len() * NUMPRE.len());
+    format!("{}{}{}", NUMPRE[pr], string_at_over(NUMALPHABET, s), NUMPOST[po])
+}
+
+fn uctx_at(idx: usize) -> String {
+    let m = idx - 1;
+    let po = m % UPOST.len();
+    let c = (m / UPOST.len()) % UCHARS.len();
+    let pr = m / (UPOST.len() * UCHARS.len());
+    format!("{}{}{}", UPRE[pr], UCHARS[c], UPOST[po])
+}
+
+fn file_at(idx: usize) -> String {
+    let m = idx - 1;
+    let tl = m % FTAILS.len();
+    let b = (m / FTAILS.len()) % FBODIES.len();
+    let h = m / (FTAILS.len() * FBODIES.len());
+    format!("{}{}{}", FHEADS[h], FBODIES[b], FTAILS[tl])
+}
+
+fn long_parts(idx: usize) -> (&'static str, usize, &'static str) {
+    let m = idx - 1;
+    let w = m % LWINDOWS.len();
+    let c = (m / LWINDOWS.len()) % LCOUNTS.len();
+    let u = m / (LWINDOWS.len() * LCOUNTS.len());
+    (LUNITS[u], LCOUNTS[c], LWINDOWS[w])
+}
+
+fn long_at(idx: usize) -> String {
+    let (u, c, w) = long_parts(idx);
+    let mut s = u.repeat(c);
+    s.push_str(w);
+    s
+}
+
+/// exhaustive part 1..=exh, then `samples` seeded indices from exh+1..=upto
+fn exh_then_samples(exh: usize, upto: usize, samples: usize, salt: u64) -> Vec<usize> {
+    let mut idx: Vec<usize> = (1..=exh).collect();
+    if upto > exh {
+        let mut rng = rand::rngs::StdRng::seed_from_u64(seed() ^ salt);
+        for _ in 0..samples {
+            idx.push(exh + 1 + rng.gen_range(0..upto - exh));
+        }
+    }
+    idx
+}
+
+fn emit(out: &str, idx: &[usize], exh: usize, f: impl Fn(usize) -> String + Sync) {
+    let recs = vharness::pool::par_map(idx, |_, i| record_idx(&f(*i), *i));
+    write_ndjson(Path::new(out), &recs);
+    println!("{} {}", recs.len(), exh);
 }
 
 fn frag_at(idx: usize) -> String {
@@ -179,9 +419,76 @@ fn frag_at(idx: usize) -> String {
 fn main() {
     let args: Vec<String> = std::env::args().collect();
     if args.len() < 3 {
-        tool_error("usage: c17 strings|frags|free|one ...");
+        tool_error("usage: c17 strings|frags|free|one|ustrings|numgram|numctx|uctx|files|long|long-one ...");
     }
+    selfcheck();
     match args[1].as_str() {
+        "ustrings" => {
+            let exhlen: i64 = args[2].parse().unwrap();
+            let samples: usize = args[3].parse().unwrap();
+            let exh = num_strings(UALPHABET.len(), exhlen);
+            let upto = num_strings(UALPHABET.len(), (exhlen + 1).min(4));
+            let idx = exh_then_samples(exh, upto, samples, 0x0517);
+            emit(&args[4], &idx, exh, |i| string_at_over(UALPHABET, i - 1));
+        }
+        "numgram" => {
+            let exhlen: i64 = args[2].parse().unwrap();
+            let samples: usize = args[3].parse().unwrap();
+            let exh = num_strings(NUMALPHABET.len(), exhlen);
+            let upto = num_strings(NUMALPHABET.len(), NUM_MAXLEN as i64);
+            let idx = exh_then_samples(exh, upto, samples, 0x9517);
+            emit(&args[4], &idx, exh, |i| string_at_over(NUMALPHABET, i - 1));
+        }
+        "numctx" => {
+            let exhlen: i64 = args[2].parse().unwrap();
+            let samples: usize = args[3].parse().unwrap();
+            let per = NUMPRE.len() * NUMPOST.len();
+            let exh = num_strings(NUMALPHABET.len(), exhlen) * per;
+            let upto = num_strings(NUMALPHABET.len(), NUMCTX_MAXLEN as i64) * per;
+            let idx = exh_then_samples(exh, upto, samples, 0xC717);
+            emit(&args[4], &idx, exh, numctx_at);
+        }
+        "uctx" => {
+            let n = UPRE.len() * UCHARS.len() * UPOST.len();
+            let idx: Vec<usize> = (1..=n).collect();
+            emit(&args[2], &idx, n, uctx_at);
+        }
+        "files" => {
+            let n = FHEADS.len() * FBODIES.len() * FTAILS.len();
+            let idx: Vec<usize> = (1..=n).collect();
+            emit(&args[2], &idx, n, file_at);
+        }
+        "long" => {
+            let samples: usize = args[2].parse().unwrap();
+            let maxchars: usize = args[3].parse().unwrap();
+            let n = LUNITS.len() * LCOUNTS.len() * LWINDOWS.len();
+            let ok: Vec<usize> = (1..=n)
+                .filter(|i| {
+                    let (u, c, w) = long_parts(*i);
+                    u.chars().count() * c + w.chars().count() <= maxchars
+                })
+                .collect();
+            // every count at least once (with the cheapest units), then seeded samples of the admissible rest
+            let mut idx: Vec<usize> = Vec::new();
+            for ci in 0..LCOUNTS.len() {
+                for (ui, wi) in [(0usize, 0usize), (3, 1)] {
+                    idx.push(1 + wi + LWINDOWS.len() * (ci + LCOUNTS.len() * ui));
+                }
+            }
+            let mut rng = rand::rngs::StdRng::seed_from_u64(seed() ^ 0x10176);
+            for _ in 0..samples {
+                idx.push(ok[rng.gen_range(0..ok.len())]);
+            }
+            idx.sort();
+            idx.dedup();
+            let recs = vharness::pool::par_map(&idx, |_, i| record_long(*i));
+            write_ndjson(Path::new(&args[4]), &recs);
+            println!("{} 0", recs.len());
+        }
+        "long-one" => {
+            let idx: usize = args[2].parse().unwrap();
+            println!("{}", serde_json::to_string(&record_long(idx)).unwrap());
+        }
         "strings" => {
             let maxlen: usize = args[2].parse().unwrap();
             let a = ALPHABET.len();
